@@ -41,5 +41,33 @@ func TestReplay(t *testing.T) {
 }
 
 func replayOther(kind string, raw json.RawMessage) error {
+	switch kind {
+	case "record_codec":
+		var rc recordCase
+		if err := json.Unmarshal(raw, &rc); err != nil || rc.Rec == nil {
+			return ev.InconclusiveError(fmt.Sprintf("bad record_codec case: %v", err))
+		}
+		return checkRecordCodec(&rc)
+	case "row_batch":
+		var rc rowsCase
+		if err := json.Unmarshal(raw, &rc); err != nil || len(rc.Rows) == 0 {
+			return ev.InconclusiveError(fmt.Sprintf("bad row_batch case: %v", err))
+		}
+		_, err := checkRowBatch(&rc)
+		return err
+	case "row_batch_lp":
+		var lc lpCase
+		if err := json.Unmarshal(raw, &lc); err != nil || lc.Measurement == "" {
+			return ev.InconclusiveError(fmt.Sprintf("bad row_batch_lp case: %v", err))
+		}
+		return checkLPBatch(&lc)
+	case "data_file":
+		var fc fileCase
+		if err := json.Unmarshal(raw, &fc); err != nil || len(fc.Series) == 0 {
+			return ev.InconclusiveError(fmt.Sprintf("bad data_file case: %v", err))
+		}
+		_, err := checkDataFile(&fc)
+		return err
+	}
 	return ev.InconclusiveError(fmt.Sprintf("no replayer for kind %q", kind))
 }
